@@ -29,10 +29,19 @@ struct IsoSpec {
 /// Methods 1 (GET) and 5 (FETCH) are downloads, 2 (POST), 3 (PUT) and 6
 /// (PATCH) uploads, so keys that differ in the method may mix both kinds.
 fn key_variants(ch: &mut Ch, n: usize) -> Vec<(Ep, u8, Vec<Vec<u8>>)> {
-    let methods = [1u8, 3, 5, 2, 6];
-    let m1 = methods[ch.below(5, "iso.method") as usize];
+    let methods = [1u8, 3, 5, 2, 6, 7, 4];
+    let m1 = methods[ch.below(methods.len() as u64, "iso.method") as usize];
     let base_path = vec![seg("a"), seg("b")];
-    let path_alts: Vec<Vec<Vec<u8>>> = vec![vec![seg("a/b")], vec![seg("a")], vec![seg("a"), seg("b"), seg("c")], vec![seg("a"), seg("B")], vec![seg("a"), seg("")]];
+    let path_alts: Vec<Vec<Vec<u8>>> = vec![
+        vec![seg("a/b")],
+        vec![seg("a")],
+        vec![seg("a"), seg("b"), seg("c")],
+        vec![seg("a"), seg("B")],
+        vec![seg("a"), seg("")],
+        vec![seg("a"), seg("b"), seg("")],
+        vec![seg(""), seg("a"), seg("b")],
+        vec![seg("a"), seg(""), seg("b")],
+    ];
     let mut v = vec![(100 as Ep, m1, base_path.clone())];
     let dim = ch.below(4, "iso.dim");
     match dim {
@@ -84,7 +93,7 @@ fn gen_spec(ch: &mut Ch) -> IsoSpec {
     for (ci, (ep, method, path)) in keys.iter().enumerate() {
         let nblocks = 2 + ch.below(4 + extra_blocks, "iso.nblocks") as usize;
         let len = nblocks * size - ch.below(size as u64, "iso.tail") as usize;
-        let r = resources.entry(path.clone()).or_insert_with(|| ResSpec { lens: vec![len], opts: vec![], up_reply_lens: vec![0], own_block2: None });
+        let r = resources.entry(path.clone()).or_insert_with(|| ResSpec { lens: vec![len], opts: vec![], up_reply_lens: vec![0], own_block2: None, code: None });
         let upload = !(*method == 1 || *method == 5);
         let kind = if upload {
             if ch.chance(1, 3, "iso.updown") {
